@@ -605,17 +605,18 @@ class Interp(object):
         rhs = self.ev(st.value, s.env, ctx)
         t = st.target
         if isinstance(t, ast.Subscript):
-            base = self.ev(t.value, s.env, ctx)
-            idx = self.ev_index(t.slice, s.env, ctx)
-            self.store_log.append((ctx.finfo.fq, norm_text(t.value), idx, rhs, st.lineno,
-                                   type(st.op).__name__, norm_text(st)))
-            if isinstance(base, Rat):
-                old = Rat.atom(Fn("getitem", (base, idx)))
-                new = self.binop(st.op, old, rhs)
-                nv = Rat.atom(Fn("setitem", (base, idx, new)))
-                self.rebind(t.value, nv, s, ctx)
-                if isinstance(t.value, ast.Name):
-                    self._alias_update(t.value.id, nv, s, ctx, st)
+            idx0 = self.ev_index(t.slice, s.env, ctx)
+            for idx, rhs_ in (_split_block_store(idx0, rhs) or [(idx0, rhs)]):
+                base = self.ev(t.value, s.env, ctx)
+                self.store_log.append((ctx.finfo.fq, norm_text(t.value), idx, rhs_, st.lineno,
+                                       type(st.op).__name__, norm_text(st)))
+                if isinstance(base, Rat):
+                    old = Rat.atom(Fn("getitem", (base, idx)))
+                    new = self.binop(st.op, old, rhs_)
+                    nv = Rat.atom(Fn("setitem", (base, idx, new)))
+                    self.rebind(t.value, nv, s, ctx)
+                    if isinstance(t.value, ast.Name):
+                        self._alias_update(t.value.id, nv, s, ctx, st)
             return [s]
         vw = s.env.get("__views__", {}).get(t.id) if isinstance(t, ast.Name) else None
         if vw is not None and vw[2] == "view":
@@ -682,6 +683,17 @@ class Interp(object):
         elif isinstance(t, ast.Subscript):
             base = self.ev(t.value, s.env, ctx)
             idx = self.ev_index(t.slice, s.env, ctx)
+            vw = s.env.get("__views__", {}).get(t.value.id) if isinstance(t.value, ast.Name) else None
+            whole = idx is Ellipsis or _is_full_slice(idx) or (isinstance(idx, tuple) and not _is_slice(idx) and idx and
+                                                               all(x is Ellipsis or _is_full_slice(x) for x in idx))
+            if vw is not None and vw[2] == "view" and whole:
+                # item[...] = v through a view of base[index]: the store  base[index] = v
+                sub = ast.Subscript(value=vw[0], slice=vw[1], ctx=ast.Store())
+                ast.copy_location(sub, t)
+                ast.fix_missing_locations(sub)
+                self.assign(sub, v, s, ctx, st)
+                s.env[t.value.id] = v
+                return
             self.store_log.append((fq, norm_text(t.value), idx, v, st.lineno, "=", norm_text(st)))
             if isinstance(base, Rat):
                 nv = Rat.atom(Fn("setitem", (base, idx, v)))
@@ -733,6 +745,20 @@ class Interp(object):
             return self.exec_block(st.body, [s], ctx)
         if t is False:
             return self.exec_block(st.orelse, [s], ctx)
+        if isinstance(st.test, ast.BoolOp) and len(st.test.values) >= 2 and not (forced and norm_text(st.test) in forced):
+            # `if A and B: X else: Y`  is  `if A: (if B: X else: Y) else: Y` ; `if A or B: X else: Y`  is  `if A: X else: (if B: X else: Y)`
+            # - every branch decision of a path is then one atomic condition
+            first = st.test.values[0]
+            rest = st.test.values[1] if len(st.test.values) == 2 else ast.BoolOp(op=st.test.op, values=st.test.values[1:])
+            inner = ast.If(test=rest, body=st.body, orelse=st.orelse)
+            if isinstance(st.test.op, ast.And):
+                outer = ast.If(test=first, body=[inner], orelse=st.orelse)
+            else:
+                outer = ast.If(test=first, body=st.body, orelse=[inner])
+            for n_ in (rest, inner, outer):
+                ast.copy_location(n_, st)
+            ast.fix_missing_locations(outer)
+            return self.st_If(outer, s, ctx)
         txt = norm_text(st.test)
         tv = self.ev(st.test, s.env, ctx)
         k = vkey(tv) if isinstance(tv, Rat) and not has_unknown(tv) else None
@@ -936,6 +962,21 @@ class Interp(object):
             return self.st_For(outer, s, ctx)
         it = self.ev(st.iter, s.env, ctx)
         fq = ctx.finfo.fq
+        if isinstance(it, (tuple, list)) and not _is_slice(it) and not (isinstance(it, SeqList) and it.seq() is not None) \
+                and 1 <= len(it) <= 16 and not st.orelse and not (it and isinstance(it[0], str) and it[0] in ("enumerate", "zip", "slice")) and \
+                all(isinstance(x, (Rat, tuple, list, str, bool, type(None))) for x in it) and \
+                not any(isinstance(n_, (ast.Break, ast.Continue)) for b_ in st.body for n_ in ast.walk(b_)):
+            # a loop over a literal sequence of known length is the straight-line code of its iterations
+            if not hasattr(self, "unrolled_log"):
+                self.unrolled_log = []
+            self.unrolled_log.append((fq, st.lineno, len(it)))
+            states = [s]
+            for item in it:
+                for s_ in states:
+                    if s_.live:
+                        self.assign(st.target, item, s_, ctx, st)
+                states = self.exec_block(st.body, states, ctx)
+            return states
         ctx.loop_depth += 1
         tag = "L@%s" % ctx.loop_depth          # alpha-renamed loop variable: nesting depth, not the source name
         if not hasattr(ctx, "loop_stack"):
@@ -945,6 +986,24 @@ class Interp(object):
         body_state = s.fork("for %s in %s" % (norm_text(st.target), norm_text(st.iter)))
         tv = self.loop_target_value(st.target, it, tag)
         self.assign(st.target, tv, body_state, ctx, st)
+        # iterating an array of rank >= 2 yields *views* of its items: an in-place update of the item is one of the array
+        pairs = []
+        if isinstance(st.iter, ast.Name) and isinstance(st.target, ast.Name):
+            pairs = [(st.target.id, st.iter.id)]
+        elif isinstance(st.iter, ast.Call) and norm_text(st.iter.func) == "enumerate" and st.iter.args and isinstance(st.iter.args[0], ast.Name) \
+                and isinstance(st.target, ast.Tuple) and len(st.target.elts) == 2 and isinstance(st.target.elts[1], ast.Name):
+            pairs = [(st.target.elts[1].id, st.iter.args[0].id)]
+        elif isinstance(st.iter, ast.Call) and norm_text(st.iter.func) == "zip" and isinstance(st.target, ast.Tuple) and \
+                len(st.target.elts) == len(st.iter.args) and not st.iter.keywords:
+            pairs = [(t_.id, a_.id) for t_, a_ in zip(st.target.elts, st.iter.args) if isinstance(t_, ast.Name) and isinstance(a_, ast.Name)]
+        for tn_, bn_ in pairs:
+            rk_ = body_state.env.get("__ranks__", {}).get(bn_)
+            if rk_ is not None and rk_ >= 2 and bn_ in body_state.env.get("__arrays__", ()):
+                iname = "__idx@%s" % tag
+                body_state.env[iname] = Rat.sym("%s#" % tag, ("int", "loopvar"))
+                vw_ = dict(body_state.env.get("__views__", {}))
+                vw_[tn_] = (ast.Name(id=bn_, ctx=ast.Load()), ast.Name(id=iname, ctx=ast.Load()), "view")
+                body_state.env["__views__"] = vw_
         names, attrs = self._assigned_names(st.body)
         tnames = [n.id for n in ast.walk(st.target) if isinstance(n, ast.Name)]
         carried = [n for n in names if n not in tnames]
@@ -1194,6 +1253,9 @@ class Interp(object):
         if isinstance(it, tuple) and len(it) == 2 and it[0] == "enumerate":
             idx = Rat.sym("%s#" % tag, ("int", "loopvar"))
             return (idx, self.elem(it[1], idx))
+        if isinstance(it, tuple) and len(it) == 3 and it[0] == "enumerate" and isinstance(it[2], Rat):
+            idx = Rat.sym("%s#" % tag, ("int", "loopvar"))
+            return (idx + it[2], self.elem(it[1], idx))
         if isinstance(it, tuple) and len(it) == 2 and it[0] == "zip" and isinstance(it[1], tuple):
             idx = Rat.sym("%s#" % tag, ("int", "loopvar"))
             return tuple(self.elem(x, idx) for x in it[1])
@@ -1431,6 +1493,8 @@ class Interp(object):
             if isinstance(at_, Fn) and at_.name.endswith("scipy.optimize.minimize") and a in ("x", "fun", "success", "nit"):
                 return Rat.atom(Fn("getitem", (o, a)))          # OptimizeResult: res.x is res['x']
             return BoundMethod(o, a)
+        if _is_slice(o) and a in ("start", "stop", "step"):
+            return o[{"start": 1, "stop": 2, "step": 3}[a]]
         if isinstance(o, (list, tuple, dict, str, ShapeOf, ModTable)):
             return BoundMethod(o, a)
         return unk("attr", a)
@@ -1997,7 +2061,7 @@ def _itkey(it):
     if isinstance(it, RangeVal):
         return (it.lo, it.hi, it.step)
     if isinstance(it, tuple) and it and it[0] == "enumerate":
-        return ("enumerate", _itkey(it[1]))
+        return ("enumerate", _itkey(it[1])) + tuple(it[2:])
     if isinstance(it, tuple) and len(it) == 2 and it[0] == "zip" and isinstance(it[1], tuple):
         return ("zip", tuple(_itkey(x) for x in it[1]))
     return _vk(it)
@@ -2005,6 +2069,36 @@ def _itkey(it):
 
 STR_METHODS = {"strip", "lstrip", "rstrip", "upper", "lower", "title", "capitalize", "replace", "casefold", "swapcase"}
 CMP_NAMES = {"Lt": "<", "LtE": "<=", "Gt": ">", "GtE": ">=", "Eq": "==", "NotEq": "!=", "In": "in", "NotIn": "not in"}
+
+
+def _split_block_store(idx, rhs):
+    """a[r0:r1, c0:c1] op= block([[A, B], [B, D]]) * f  is the four stores of A f, B f, B f, D f into the quadrants of the
+    window: with the same off-diagonal entry in both places numpy.block forces all four blocks to one shape, so the window
+    is split in the middle of both axes.  Order: left column first (top, bottom), then the right column."""
+    if not (isinstance(idx, tuple) and len(idx) == 2 and all(_is_slice(x) and x[3] is None and isinstance(x[1], Rat) and isinstance(x[2], Rat)
+                                                              for x in idx) and isinstance(rhs, Rat)):
+        return None
+    blocks = [a for a in rhs.atoms(False) if isinstance(a, Fn) and a.name == "block"]
+    if len(blocks) != 1:
+        return None
+    b = blocks[0]
+    rows = b.args[0]
+    if not (isinstance(rows, tuple) and len(rows) == 2 and all(isinstance(r_, tuple) and len(r_) == 2 and all(isinstance(x, Rat) for x in r_)
+                                                                 for r_ in rows) and vkey(rows[0][1]) == vkey(rows[1][0])):
+        return None
+    (A, B), (C, D) = rows
+    from .plf import simplify_ratio
+    try:
+        f = simplify_ratio(rhs / Rat.atom(b))
+    except ZeroDivisionError:
+        return None
+    if any(isinstance(a, Fn) and a.name == "block" for a in f.atoms()) or not (f * Rat.atom(b) == rhs):
+        return None
+    (_, r0, r1, _), (_, c0, c1, _) = idx
+    hr, hc = (r1 - r0) / 2, (c1 - c0) / 2
+    sl = lambda lo, hi: ("slice", lo, hi, None)
+    return [((sl(r0, r0 + hr), sl(c0, c0 + hc)), A * f), ((sl(r0 + hr, r1), sl(c0, c0 + hc)), C * f),
+            ((sl(r0, r0 + hr), sl(c0 + hc, c1)), B * f), ((sl(r0 + hr, r1), sl(c0 + hc, c1)), D * f)]
 
 
 def _flat_index_grid(l, r, axis):
@@ -2150,6 +2244,23 @@ def _array(I, a, k, e, env, ctx):
     return NotImplemented
 
 
+@ext("numpy.block")
+def _block(I, a, k, e, env, ctx):
+    if len(a) == 1 and not k and isinstance(a[0], (list, tuple)) and a[0] and \
+            all(isinstance(r_, (list, tuple)) and len(r_) == len(a[0][0]) and all(isinstance(x, Rat) for x in r_) for r_ in a[0]):
+        return Rat.atom(Fn("block", (tuple(tuple(r_) for r_ in a[0]),)))
+    return NotImplemented
+
+
+@ext("numpy.ptp")
+def _ptp(I, a, k, e, env, ctx):
+    # peak to peak: max - min
+    ax = a[1] if len(a) > 1 else k.get("axis")
+    if a and isinstance(a[0], Rat) and set(k) <= {"axis"}:
+        return mk_reduce("max", a[0], _axis(ax)) - mk_reduce("min", a[0], _axis(ax))
+    return NotImplemented
+
+
 @ext("numpy.stack")
 def _stack(I, a, k, e, env, ctx):
     # stacking along a new leading axis is what numpy.array does with a list of equal-shape arrays
@@ -2223,7 +2334,10 @@ def _range(I, a, k, e, env, ctx):
 
 @ext("builtins.enumerate")
 def _enumerate(I, a, k, e, env, ctx):
-    return ("enumerate", a[0])
+    start = a[1] if len(a) > 1 else k.get("start")
+    if start is None or (isinstance(start, Rat) and start.is_zero()):
+        return ("enumerate", a[0])
+    return ("enumerate", a[0], start)
 
 
 @ext("builtins.iter")
@@ -2600,6 +2714,17 @@ def _is_full_slice(x):
 def mk_getitem(o, idx):
     """o[idx]; consecutive basic slicings of different axes compose: x[a:b][:, c:d] and x[:, c:d][a:b] are x[a:b, c:d]"""
     a = o.single_atom() if isinstance(o, Rat) else None
+    if isinstance(a, Fn) and a.name == "concat" and isinstance(idx, Rat) and len(a.args) == 2 and a.args[1] in (0, None) and \
+            isinstance(a.args[0], tuple) and len(a.args[0]) == 2:
+        # table of prefix sums: concatenate(([0], cumsum(v)))[i] is v[:i].sum()
+        z, cs = a.args[0]
+        z0 = z[0] if isinstance(z, (tuple, list)) and len(z) == 1 else (z.single_atom().args[0][0]
+                                                                          if isinstance(z, Rat) and isinstance(z.single_atom(), Fn) and
+                                                                          z.single_atom().name == "array" and len(z.single_atom().args[0]) == 1 else None)
+        ca = cs.single_atom() if isinstance(cs, Rat) else None
+        if isinstance(z0, Rat) and z0.is_zero() and isinstance(ca, Fn) and ca.name == "cumsum" and len(ca.args) >= 1 and isinstance(ca.args[0], Rat) \
+                and all(x is None for x in ca.args[1:]):
+            return Rat.atom(Fn("sum", (Rat.atom(Fn("getitem", (ca.args[0], ("slice", Rat.const(0), idx, None)))), None)))
     if isinstance(a, Fn) and a.name == "getitem" and isinstance(a.args[0], Rat):
         i1 = a.args[1]
         i1 = (i1,) if _is_slice(i1) else i1
